@@ -43,22 +43,34 @@ def main():
     finally:
         sh("git -C /repo worktree remove --force %s" % wt)
     res["confirmed"] = bool(res.get("demo_on_clean_tree_passes") and res.get("patch_applies") and res.get("suite_passes_with_patch") and res.get("demo_fails_with_patch"))
-    # run the checks against /repo with the patch applied
-    assert sh("git -C /repo status --porcelain")[1].strip() == "", "/repo not clean"
-    rc, o = sh("git -C /repo apply %s/patch.diff" % sd)
+    # run the checks against the patched tree.  Default: a private copy (so that several evaluations / the developer loop do
+    # not trample on /repo); with SEED_EVAL_IN_REPO=1 the patch is applied to /repo itself and undone afterwards (the
+    # protocol of the brief; rounds 1 and 2 were evaluated that way).
     res["checks"] = {}
+    if os.environ.get("SEED_EVAL_IN_REPO") == "1":
+        assert sh("git -C /repo status --porcelain")[1].strip() == "", "/repo not clean"
+        rc, o = sh("git -C /repo apply %s/patch.diff" % sd)
+        repo_arg = ""
+    else:
+        cp = "/tmp/seed-repo-" + sid
+        sh("rm -rf %s && mkdir -p %s && rsync -a --exclude target --exclude .git /repo/ %s/" % (cp, cp, cp))
+        rc, o = sh("patch -p1 < %s/patch.diff" % sd, cwd=cp)
+        repo_arg = " --repo " + cp
     try:
         if rc == 0:
             for p in props:
                 t0 = time.time()
-                rc2, o2 = sh("./check %s" % p, cwd=V)
+                rc2, o2 = sh("./check %s%s" % (p, repo_arg), cwd=V)
                 lines = [l for l in o2.splitlines() if l.startswith(("VIOLATION", "FAILED OBLIGATION", "UNDECIDED", "KNOWN-FINDING"))]
                 res["checks"][p] = {"rc": rc2, "wall_s": round(time.time() - t0, 1), "lines": lines[:12]}
         else:
             res["checks"]["apply_error"] = o
     finally:
-        sh("git -C /repo checkout -- .")
-    assert sh("git -C /repo status --porcelain")[1].strip() == "", "/repo not restored"
+        if repo_arg:
+            sh("rm -rf /tmp/seed-repo-" + sid)
+        else:
+            sh("git -C /repo checkout -- .")
+            assert sh("git -C /repo status --porcelain")[1].strip() == "", "/repo not restored"
     out = os.path.join(V, "seeded", sid)
     os.makedirs(out, exist_ok=True)
     for f in ("patch.diff", "demo.rs"):
